@@ -31,10 +31,10 @@ fn write4<T: EncodingContext>(ctx: &mut T, s: &ArrayVec<u8, 4>) {
     }
 }
 
-fn handle_end<T: EncodingContext>(
-    ctx: &mut T,
-    mut symbols: ArrayVec<u8, 4>,
-) -> Result<(), DataEncodingError> {
+/// Check for the case "encoding with <= 2 ASCII, no UNLATCH" at the end of data.
+///
+/// Returns true if the rest is left to the ASCII encoder.
+fn ascii_end<T: EncodingContext>(ctx: &mut T, symbols: &ArrayVec<u8, 4>) -> bool {
     // check case "encoding with <= 2 ASCII, no UNLATCH"
     let rest_chars = symbols.len() + ctx.characters_left();
     if rest_chars <= 4 {
@@ -52,11 +52,21 @@ fn handle_end<T: EncodingContext>(
                 Some(space) if space <= 2 && ascii_size <= space => {
                     ctx.backup(symbols.len());
                     ctx.set_ascii_until_end();
-                    return Ok(());
+                    return true;
                 }
                 _ => (),
             }
         }
+    }
+    false
+}
+
+fn handle_end<T: EncodingContext>(
+    ctx: &mut T,
+    mut symbols: ArrayVec<u8, 4>,
+) -> Result<(), DataEncodingError> {
+    if ascii_end(ctx, &symbols) {
+        return Ok(());
     }
     if symbols.is_empty() {
         if !ctx.has_more_characters() {
@@ -101,6 +111,10 @@ pub(super) fn encode<T: EncodingContext>(ctx: &mut T) -> Result<(), DataEncoding
         symbols.push(ch);
 
         if symbols.len() == 4 {
+            if !ctx.has_more_characters() && ascii_end(ctx, &symbols) {
+                // four digits at the end of data which fit as ASCII, as planned
+                return Ok(());
+            }
             write4(ctx, &symbols);
             symbols.clear();
             if ctx.maybe_switch_mode()? {
